@@ -4,13 +4,17 @@
 //! the harness (they answer only when an operation says so). Every hook event of the pipe and of
 //! the forwarder, every environment operation and every observation (datagrams at the peers and
 //! at the downstream sink with their labels, the outbound_udp_sockets gauge, the number of file
-//! descriptors, whether exchange() returned) is one ndjson line; the whole trace must be a
+//! descriptors, whether exchange() returned) and every call of the pipe's `update_metrics`
+//! callback (`Metric(dir, n)`, emitted by the closure handed to the door, so it is ordered with
+//! the hook events; running totals in every `Obs`) is one ndjson line; the whole trace must be a
 //! behaviour of UdpMux.tla (UdpMuxTrace.tla), which is the only oracle.
 //!
 //! Modes:
 //!   --random N        N seeded random operation histories
 //!   --schedules FILE  operation histories exported by TLC (`<<"SCHED", json>>` lines)
 //!   --socks5          the SOCKS5 unit-level orientation check (see `socks5_job`)
+//! Operations: D(f) datagram, B(f,g) burst, R(f) peer reply, Tick, Down(a)/Up(a) peer port,
+//! Stall/Resume (the scripted client-side sink answers Dropped while stalled).
 //! Output: --trace FILE (ndjson), --out FILE (result json)
 //!
 //! Flow table (the same as spec/MCUdpMux.tla):
@@ -27,6 +31,7 @@ use std::io;
 use std::io::Write as _;
 use std::net::{SocketAddr, UdpSocket};
 use std::pin::Pin;
+use std::sync::atomic::{AtomicU64, Ordering};
 use std::sync::{Arc, Mutex};
 use std::task::{Context, Poll};
 use std::time::{Duration, Instant};
@@ -99,7 +104,7 @@ impl Server {
                     let (f, id) = parse_payload(&buf[..n]);
                     self.seen.insert(f, from);
                     self.rx += 1;
-                    ev("PeerGot", format!("\"a\":\"{}\",\"f\":{},\"id\":{}", self.name, f, id));
+                    ev("PeerGot", format!("\"a\":\"{}\",\"f\":{},\"id\":{},\"n\":{}", self.name, f, id, n));
                 }
                 Err(e) if e.kind() == io::ErrorKind::WouldBlock => return,
                 Err(_) => return, // an ICMP error reported on the unconnected socket: nothing to read
@@ -108,8 +113,10 @@ impl Server {
     }
 }
 
+/// `<kind><flow>:<id>:` followed by padding, so that payload lengths differ between datagrams
 fn payload(kind: char, f: usize, id: u64) -> Bytes {
-    Bytes::from(format!("{}{}:{}", kind, f, id).into_bytes())
+    let pad = ((id * 7 + f as u64 * 3) % 23) as usize;
+    Bytes::from(format!("{}{}:{}:{}", kind, f, id, "x".repeat(pad)).into_bytes())
 }
 
 fn parse_payload(b: &[u8]) -> (usize, u64) {
@@ -196,6 +203,10 @@ struct World {
     closed: bool,
     /// the pipe is parked in source.read() with nothing to read
     src_waiting: bool,
+    /// the client does not take datagrams: the downstream sink answers Dropped
+    stalled: bool,
+    /// payload bytes the downstream sink accepted
+    client_bytes: u64,
 }
 
 type Shared = Arc<Mutex<World>>;
@@ -227,9 +238,13 @@ impl VDatagramSource for Src {
 impl VDatagramSink for Snk {
     async fn write(&mut self, d: VDatagram) -> io::Result<bool> {
         let (f, id) = parse_payload(&d.payload);
-        ev("ClientGot", format!("\"s\":\"{}\",\"d\":\"{}\",\"f\":{},\"id\":{}", d.source, d.destination, f, id));
-        let _ = &self.0;
-        Ok(true)
+        let mut g = self.0.lock().unwrap();
+        let sent = !g.stalled;
+        if sent {
+            g.client_bytes += d.payload.len() as u64;
+        }
+        ev("ClientGot", format!("\"s\":\"{}\",\"d\":\"{}\",\"f\":{},\"id\":{},\"n\":{},\"sent\":{}", d.source, d.destination, f, id, d.payload.len(), sent));
+        Ok(sent)
     }
 }
 
@@ -243,6 +258,8 @@ enum Op {
     Tick,
     Down(&'static str),
     Up(&'static str),
+    Stall,
+    Resume,
 }
 
 fn op_json(o: &Op) -> Value {
@@ -253,6 +270,8 @@ fn op_json(o: &Op) -> Value {
         Op::Tick => json!({"e": "Tick"}),
         Op::Down(a) => json!({"e": "Down", "a": a}),
         Op::Up(a) => json!({"e": "Up", "a": a}),
+        Op::Stall => json!({"e": "Stall"}),
+        Op::Resume => json!({"e": "Resume"}),
     }
 }
 
@@ -277,6 +296,8 @@ struct Run<'a> {
     fut: Option<PipeFut>,
     result: Option<io::Result<()>>,
     gauge: Gauge,
+    /// running totals of update_metrics(Outgoing, n) / update_metrics(Incoming, n)
+    met: Arc<(AtomicU64, AtomicU64)>,
     lines: Vec<String>,
     // view of the implementation built from its hook events (used only to decide what to wait for)
     live: HashSet<(String, String)>,
@@ -408,7 +429,9 @@ impl<'a> Run<'a> {
     fn obs(&mut self) {
         let open_servers = self.net.servers.iter().filter(|s| s.up()).count() as i64;
         let fds = count_fds() - self.fd_base - (open_servers - 3);
-        ev("Obs", format!("\"gauge\":{},\"fds\":{},\"alive\":{}", self.gauge.outbound_udp_sockets(), fds, self.fut.is_some()));
+        let cb = self.world.lock().unwrap().client_bytes;
+        ev("Obs", format!("\"gauge\":{},\"fds\":{},\"alive\":{},\"mo\":{},\"mi\":{},\"cb\":{}", self.gauge.outbound_udp_sockets(), fds, self.fut.is_some(),
+            self.met.0.load(Ordering::SeqCst), self.met.1.load(Ordering::SeqCst), cb));
         self.pump();
     }
 
@@ -416,8 +439,9 @@ impl<'a> Run<'a> {
         let (s, d) = self.net.flow(f);
         let id = self.next_id;
         self.next_id += 1;
-        ev("ClientDgram", format!("\"f\":{},\"id\":{}", f, id));
-        self.world.lock().unwrap().inq.push_back(VDatagram { source: s, destination: d, payload: payload('q', f, id) });
+        let body = payload('q', f, id);
+        ev("ClientDgram", format!("\"f\":{},\"id\":{},\"n\":{}", f, id, body.len()));
+        self.world.lock().unwrap().inq.push_back(VDatagram { source: s, destination: d, payload: body });
     }
 
     async fn apply(&mut self, op: &Op) {
@@ -442,9 +466,10 @@ impl<'a> Run<'a> {
                     (true, Some(to), true) => {
                         let id = self.next_id;
                         self.next_id += 1;
-                        ev("PeerReply", format!("\"f\":{},\"id\":{}", f, id));
+                        let body = payload('r', *f, id);
+                        ev("PeerReply", format!("\"f\":{},\"id\":{},\"n\":{}", f, id, body.len()));
                         let srv = self.net.server(dn);
-                        let _ = srv.sock.as_ref().unwrap().send_to(&payload('r', *f, id), to);
+                        let _ = srv.sock.as_ref().unwrap().send_to(&body, to);
                         self.settle(Some((id, (sn.to_string(), dn.to_string())))).await;
                     }
                     _ => {
@@ -488,6 +513,16 @@ impl<'a> Run<'a> {
                 ev("Up", format!("\"a\":\"{}\"", a));
                 self.settle(None).await;
             }
+            Op::Stall | Op::Resume => {
+                let want = matches!(op, Op::Stall);
+                if self.world.lock().unwrap().stalled == want {
+                    self.skipped += 1;
+                    return;
+                }
+                self.world.lock().unwrap().stalled = want;
+                ev(if want { "Stall" } else { "Resume" }, String::new());
+                self.settle(None).await;
+            }
         }
         if self.fut.is_some() {
             self.obs();
@@ -514,12 +549,18 @@ async fn run_one(net: &mut Net, ops: &[Op]) -> Outcome {
     verif::start_recording();
     let fd_base = count_fds();
     ev("Start", format!("\"T\":{},\"P\":{}", T_MS, P_MS));
+    let met: Arc<(AtomicU64, AtomicU64)> = Arc::new((AtomicU64::new(0), AtomicU64::new(0)));
+    let m2 = met.clone();
     let mux = UdpMux::new(
         Upstream::Direct,
         Box::new(Src(world.clone())),
         Box::new(Snk(world.clone())),
         Duration::from_millis(T_MS),
-        |_out, _n| {},
+        move |out, n| {
+            // the pipe's update_metrics callback: one trace line per call, ordered with the hooks
+            ev("Metric", format!("\"dir\":\"{}\",\"n\":{}", if out { "out" } else { "in" }, n));
+            if out { &m2.0 } else { &m2.1 }.fetch_add(n as u64, Ordering::SeqCst);
+        },
     )
     .expect("udp mux");
     let gauge = mux.gauge();
@@ -531,6 +572,7 @@ async fn run_one(net: &mut Net, ops: &[Op]) -> Outcome {
         fut: Some(fut),
         result: None,
         gauge,
+        met,
         lines: Vec::new(),
         live: HashSet::new(),
         expect_rx: HashMap::new(),
@@ -608,7 +650,7 @@ fn random_ops(rng: &mut StdRng) -> Vec<Op> {
     let fav: Vec<usize> = (0..2).map(|_| rng.gen_range(1..=NFLOWS)).collect();
     let flow = |rng: &mut StdRng| if rng.gen_range(0..3) > 0 { fav[rng.gen_range(0..fav.len())] } else { rng.gen_range(1..=NFLOWS) };
     while ops.len() < n {
-        match rng.gen_range(0..24) {
+        match rng.gen_range(0..26) {
             0..=5 => ops.push(Op::D(flow(rng))),
             6..=7 => {
                 let f = flow(rng);
@@ -624,6 +666,17 @@ fn random_ops(rng: &mut StdRng) -> Vec<Op> {
             }
             17 => ops.push(Op::Down(servers[rng.gen_range(0..3)])),
             18 => ops.push(Op::Up(servers[rng.gen_range(0..3)])),
+            22 => ops.push(if rng.gen() { Op::Stall } else { Op::Resume }),
+            23 => {
+                // the client stalls while a peer answers: the replies are dropped, not counted
+                let f = flow(rng);
+                ops.push(Op::D(f));
+                ops.push(Op::Stall);
+                ops.push(Op::R(f));
+                ops.push(Op::R(f));
+                ops.push(Op::Resume);
+                ops.push(Op::R(f));
+            }
             19 => {
                 // idle long enough to expire, then the same pair again
                 let f = flow(rng);
@@ -688,6 +741,8 @@ fn parse_ops(s: &Value) -> Vec<Op> {
                 "Tick" => Op::Tick,
                 "Down" => Op::Down(static_name(o["a"].as_str().unwrap())),
                 "Up" => Op::Up(static_name(o["a"].as_str().unwrap())),
+                "Stall" => Op::Stall,
+                "Resume" => Op::Resume,
                 x => panic!("unknown op {}", x),
             }
         })
@@ -778,6 +833,9 @@ fn main() {
             ("socket_errors_read", "\"cause\":\"error\""),
             ("connect_errors", "\"ev\":\"SockOpen\",\"s\":\"a\",\"d\":\"U\",\"ok\":false"),
             ("client_got", "\"ev\":\"ClientGot\""),
+            ("client_dropped", "\"sent\":false"),
+            ("metric_out", "\"ev\":\"Metric\",\"dir\":\"out\""),
+            ("metric_in", "\"ev\":\"Metric\",\"dir\":\"in\""),
             ("peer_got", "\"ev\":\"PeerGot\""),
         ] {
             rep.count(k, o.lines.iter().filter(|l| l.contains(pat)).count() as u64);
@@ -929,7 +987,7 @@ fn socks5_job(rt: &tokio::runtime::Runtime, rep: &mut Report) {
                 }
             }};
         }
-        let mut inject = |dst: SocketAddr, id: &mut u64| {
+        let inject = |dst: SocketAddr, id: &mut u64| {
             *id += 1;
             world.lock().unwrap().inq.push_back(VDatagram { source: a, destination: dst, payload: payload('q', 9, *id) });
             *id
